@@ -53,11 +53,12 @@ func init() {
 			if err != nil {
 				panic(err)
 			}
-			app.InitChain(abci.RequestInitChain{Validators: []abci.ValidatorUpdate{}, ConsensusParams: sifapp.DefaultConsensusParams, AppStateBytes: stateBytes})
+			chainID := []string{"sifchain-1", "sifchain-testnet-1", "sifchain-devnet-1", "localnet"}[rng.Intn(4)]
+			app.InitChain(abci.RequestInitChain{ChainId: chainID, Validators: []abci.ValidatorUpdate{}, ConsensusParams: sifapp.DefaultConsensusParams, AppStateBytes: stateBytes})
 			h := int64(1)
 			// block 1: set the stage through the keepers inside a block (deliver state), then commit
-			app.BeginBlock(abci.RequestBeginBlock{Header: tmproto.Header{Height: h}})
-			ctx := app.BaseApp.NewContext(false, tmproto.Header{Height: h})
+			app.BeginBlock(abci.RequestBeginBlock{Header: tmproto.Header{Height: h, ChainID: chainID}})
+			ctx := app.BaseApp.NewContext(false, tmproto.Header{Height: h, ChainID: chainID})
 			j := int64(1 + rng.Intn(6))
 			c0 := new(big.Int).Sub(cap_, new(big.Int).Mul(per, big.NewInt(j)))
 			c0.Sub(c0, new(big.Int).Mod(rng.BigBits(70), per))
@@ -114,7 +115,7 @@ func init() {
 			app.EndBlock(abci.RequestEndBlock{Height: h})
 			app.Commit()
 
-			view := func() sdk.Context { return app.BaseApp.NewContext(true, tmproto.Header{Height: h}) }
+			view := func() sdk.Context { return app.BaseApp.NewContext(true, tmproto.Header{Height: h, ChainID: chainID}) }
 			counter := func() string {
 				c, found := app.DispensationKeeper.GetMintController(view())
 				if !found {
@@ -125,6 +126,7 @@ func init() {
 			bal := func(a sdk.AccAddress) *big.Int { return app.BankKeeper.GetBalance(view(), a, "rowan").Amount.BigInt() }
 			sup := func() *big.Int { return app.BankKeeper.GetSupply(view(), "rowan").Amount.BigInt() }
 
+			out.Emit("mint.chain "+chainID, "ok", "chain."+chainID, false)
 			out.Emit(fmt.Sprintf("mint.cfg %s 0", mod.String()), fmt.Sprintf("cap=%s per=%s eco=%s", disptypes.MaxMintAmount, disptypes.MintAmountPerBlock, disptypes.EcoPool), "cfg", false)
 			out.Emit(fmt.Sprintf("mint.init %s %s %s %s", counter(), sup(), bal(eco), bal(mod)), "ok", "init", false)
 			out.Emit("rw.periods "+strings.Join(toks, " "), "ok", "periods", false)
@@ -156,7 +158,7 @@ func init() {
 					stepTag = "app.upgrade.mint-state-preserved"
 				}
 				beginRes := protect(func() string {
-					app.BeginBlock(abci.RequestBeginBlock{Header: tmproto.Header{Height: h}})
+					app.BeginBlock(abci.RequestBeginBlock{Header: tmproto.Header{Height: h, ChainID: chainID}})
 					return "ok"
 				})
 				if beginRes != "ok" {
@@ -165,7 +167,7 @@ func init() {
 				}
 				if name, ok := upgrades[h]; ok {
 					// the plan must have been applied by the x/upgrade BeginBlocker of this block
-					actx := app.BaseApp.NewContext(false, tmproto.Header{Height: h})
+					actx := app.BaseApp.NewContext(false, tmproto.Header{Height: h, ChainID: chainID})
 					if _, pending := app.UpgradeKeeper.GetUpgradePlan(actx); pending || app.UpgradeKeeper.GetDoneHeight(actx, name) != h {
 						panic("harness: upgrade " + name + " was not applied")
 					}
@@ -173,13 +175,13 @@ func init() {
 				}
 				if name, ok := upgrades[h+2]; ok {
 					// a passed SoftwareUpgradeProposal schedules the plan
-					sctx := app.BaseApp.NewContext(false, tmproto.Header{Height: h})
+					sctx := app.BaseApp.NewContext(false, tmproto.Header{Height: h, ChainID: chainID})
 					if err := app.UpgradeKeeper.ScheduleUpgrade(sctx, upgradetypes.Plan{Name: name, Height: h + 2}); err != nil {
 						panic(err)
 					}
 				}
 				// the begin blockers have run; look at the deliver state before the end blockers
-				dctx := app.BaseApp.NewContext(false, tmproto.Header{Height: h})
+				dctx := app.BaseApp.NewContext(false, tmproto.Header{Height: h, ChainID: chainID})
 				cMid := "none"
 				if c, found := app.DispensationKeeper.GetMintController(dctx); found {
 					cMid = c.TotalCounter.Amount.String()
